@@ -152,6 +152,56 @@ def range_rule(ctx, R2):
 
 
 
+def mode_decision(X, name, ops):
+    """x86_mn.asm_candidates interpreted from its first statement, with the instruction table answered by the row model, until self.mnemo_mode is set:
+    ('ok', prefixes, mode) | ('raises', exception name).  Helpers the method calls (methods of x86_mn through self, module-level functions) are followed."""
+    from ..consteval import Evaluator, Obj, Native, NotConst, PyRaise, class_obj
+    arch, E, afs = X.arch, X.env, X.afs
+    ac = arch.method('x86_mn', 'asm_candidates')
+    params = [a.arg for a in ac.args.args]
+    if len(params) != 4:
+        raise AnalysisError('x86_mn.asm_candidates has an unexpected signature: %s' % params)
+    cache = X.__dict__.setdefault('_mode_decision_scope', None)
+    if cache is None:
+        log = Obj('log')
+        for k_ in ('debug', 'error', 'info', 'warning', 'warn'):
+            setattr(log, k_, Native(lambda *a: None))
+        base_keys = [E[k] for k in ('w8', 'se', 'sw', 'ww', 'sg', 'dr', 'cr', 'ft', 'w64', 'sd', 'wd', 'bkf', 'spf', 'dtf', 'mmx') if k in E]
+
+        def rows_of(nm_):
+            out = []
+            for opc, nm, row in X.lookup.get(nm_, []):
+                c = Obj('row:%s' % nm_)
+                md = dict((k, None) for k in base_keys)
+                md.update(nm)
+                c.modifs, c.afs, c.name, c.opc, c.rm = md, row.afs, row.name, list(opc), list(row.rm)
+                out.append(c)
+            return out
+        db = Obj('x86mndb')
+        db.find_mnemo = Native(rows_of)
+        scope0 = dict((k_, v_) for k_, v_ in E.items() if isinstance(v_, (str, int, bool, list, tuple, dict)) or v_ is None)
+        for fname_, fnode_ in arch.funcs.items():
+            scope0.setdefault(fname_, fnode_)
+        scope0.update({'log': log, 'x86_afs': afs, 'x86mndb': db})
+        cache = X.__dict__['_mode_decision_scope'] = scope0
+    me = class_obj(arch, 'x86_mn', 'self')
+    pf = []
+    scope = dict(cache)
+    scope.update({params[0]: me, params[1]: pf, params[2]: name, params[3]: ops})
+    ev = Evaluator({})
+    ev.env = scope
+    try:
+        for st in ac.body:
+            ev.exec_stmts([st], scope)
+            if 'mnemo_mode' in me.__dict__.get('_attrs', {}):
+                return 'ok', pf, me.mnemo_mode
+    except PyRaise as e:
+        return 'raises', e.exc_name, None
+    except NotConst as e:
+        raise AnalysisError('asm_candidates is outside the evaluable subset before the operand size is decided (%s): %s' % (name, e))
+    raise AnalysisError('asm_candidates never sets self.mnemo_mode on %s' % name)
+
+
 def fixed_reg_mode_rule(ctx, R3, X=None):
     """The operand-size detection loop of asm_candidates, evaluated on the operand lists of every row with a fixed 16-bit register operand
     (the dx port of in/out), as the Intel parser delivers them and as the AT&T parser does (register operands carry a 'txt' key): shared by C02 and C19."""
@@ -159,12 +209,7 @@ def fixed_reg_mode_rule(ctx, R3, X=None):
     X = X or x86model(ctx)
     arch, E = X.arch, X.env
     ac = arch.method('x86_mn', 'asm_candidates')
-    det = None
-    for n in walk_no_nested(ac):
-        if isinstance(n, ast.For) and u(n.iter) == 'args_eval' and any(isinstance(x, ast.Assign) and u(x.targets[0]) == 'self.mnemo_mode' for s2 in n.body for x in ast.walk(s2)):
-            det = n
-    if det is None:
-        raise AnalysisError('asm_candidates: the loop that detects the operand mode from the operands was not found')
+    det = ac        # (reports point at the method: where the vote is taken - in its body or in a helper - is not read)
     afs_ = X.afs
     fixed16 = [k for k in ('r_dx',) if isinstance(E.get(k), dict) and E[k].get(afs_.size) == afs_.u16]
     n_fixed = 0
@@ -181,19 +226,12 @@ def fixed_reg_mode_rule(ctx, R3, X=None):
                     if parser == 'att':
                         for o_ in ops:
                             o_['txt'] = 'reg'          # the memo ia32_att.p_register_* leaves on a register operand
-                    me3 = _Obj3('self')
-                    me3.mnemo_mode = None
-                    scope = dict(E)
-                    scope.update({'self': me3, 'name': row.name, 'args_eval': ops, 'x86_afs': afs_, 'u16': afs_.u16, 'u32': afs_.u32, 'u08': afs_.u08})
-                    for fname_, fnode_ in arch.funcs.items():
-                        scope.setdefault(fname_, fnode_)
-                    ev3 = _Ev3({})
-                    ev3.env = scope
-                    try:
-                        ev3.exec_stmts([det], scope)
-                    except _NC3 as e:
-                        raise AnalysisError('asm_candidates: operand-mode detection loop not evaluable on %s: %s' % (row.name, e))
-                    got = me3.mnemo_mode or afs_.u32
+                    st_, pf_, mode_ = mode_decision(X, row.name, ops)
+                    if st_ != 'ok':
+                        R3.violation('mode-detection:%s:%s:%s:raises' % (row.name, acc_size, parser), 'mode:detect:raises:%s' % row.name, 'asm_candidates raises %s on %s before the operand size is decided'
+                                     % (pf_, row.name), where(arch, det))
+                        continue
+                    got = mode_ or afs_.u32
                     want = afs_.u16 if acc_size == afs_.u16 else afs_.u32
                     inst = 'mode-detection:%s:%s:%s:%s' % (row.name, ' '.join('%02X' % b for b in row.opc), acc_size, parser)
                     n_fixed += 1
@@ -379,33 +417,22 @@ def run(ctx, report):
         else:
             R3.violation('candidate-mode', 'mode:candidate', 'the candidate tuple no longer carries %s as its operand mode: %s' % (prefix_guard, norm(n)[:80]), where(arch, n))
 
-    # the operand mode is detected from ALL operands: a 32-bit register anywhere wins over an earlier 16-bit operand
-    det = None
-    for n in walk_no_nested(ac):
-        if isinstance(n, ast.For) and u(n.iter) == 'args_eval' and any(isinstance(x, ast.Assign) and u(x.targets[0]) == prefix_guard for s2 in n.body for x in ast.walk(s2)):
-            det = n
-    if det is None:
-        raise AnalysisError('asm_candidates: the loop that detects the operand mode from the operands was not found')
-    for st in det.body:
-        if not isinstance(st, ast.If):
-            continue
-        sets = [x for s2 in st.body for x in ast.walk(s2) if isinstance(x, ast.Assign) and u(x.targets[0]) == prefix_guard]
-        if not sets:
-            continue
-        val = u(sets[0].value)
-        brk = any(isinstance(x, ast.Break) for s2 in st.body for x in ast.walk(s2))
-        inst = 'mode-detection:%s' % val
-        if val in ('u16', 'x86_afs.u16'):
-            if brk:
-                R3.violation(inst, 'mode:detect:u16-break', 'the operand-mode detection stops at the first 16-bit operand: a 32-bit register that follows (out dx, eax) is ignored and the '
-                             'instruction gets the 0x66 prefix', where(arch, st), witness="asm('out dx, eax') == [66 ef]")
-            else:
-                R3.ok(inst, sample='a 16-bit operand selects u16 only provisionally (the scan continues)')
-        elif val in ('u32', 'x86_afs.u32'):
-            if brk:
-                R3.ok(inst, sample='a 32-bit register decides u32 at once')
-            else:
-                R3.violation(inst, 'mode:detect:u32-nobreak', 'a 32-bit register no longer ends the operand-mode detection: a later 16-bit operand can override it', where(arch, st))
+    # the operand mode is detected from ALL operands: a 32-bit register anywhere wins over a 16-bit operand before or after it (asm_candidates interpreted up to the
+    # decision; where the vote is taken - a loop in the body, a helper method - is not read)
+    def _g(n_, size_):
+        return {n_: 1, afs.size: size_, afs.ad: False}
+    for text_, name_, ops_, want_ in (('out dx, eax', 'out', [_g(2, afs.u16), _g(0, afs.u32)], afs.u32), ('movzx eax, bx', 'movzx', [_g(0, afs.u32), _g(3, afs.u16)], afs.u32),
+                                      ('out dx, ax', 'out', [_g(2, afs.u16), _g(0, afs.u16)], afs.u16), ('add ax, bx', 'add', [_g(0, afs.u16), _g(3, afs.u16)], afs.u16)):
+        st_, pf_, mode_ = mode_decision(X, name_, ops_)
+        inst = 'mode-detection:%s' % text_
+        if st_ != 'ok':
+            R3.violation(inst, 'mode:detect:raises', 'asm_candidates raises %s on `%s` before the operand size is decided' % (pf_, text_), where(arch, ac))
+        elif mode_ != want_:
+            R3.violation(inst, 'mode:detect:%s' % ('u16-break' if want_ == afs.u32 else 'u16-lost'), '`%s`: the operand-mode detection decides %s; %s' % (
+                text_, mode_, 'the 32-bit register decides whatever stands beside it (the instruction gets a 0x66 prefix)' if want_ == afs.u32 else 'both operands are 16 bits wide'),
+                where(arch, ac), witness="asm('out dx, eax') == [66 ef]")
+        else:
+            R3.ok(inst, sample='`%s` -> %s' % (text_, mode_))
 
     from ..consteval import Evaluator as _Ev3, Obj as _Obj3, Native as _Nat3, NotConst as _NC3
     fixed_reg_mode_rule(ctx, R3, X)
